@@ -104,9 +104,9 @@ remove_node = Contract(
         # only intermediates have children and contribute to the tracked totals
         "implies(len(node) != 1, not (node in self.children))",
         "implies(len(node) == 1, keys(self.children) == old(keys(self.children)) and self._flops == old(self._flops) and self._write == old(self._write))",
-        "implies(len(node) != 1, self._flops == old(self._flops) - (self.get_flops(node) if self._track_flops else 0))",
-        "implies(len(node) != 1, self._write == old(self._write) - (self.get_size(node) if self._track_write else 0))",
-        f"implies(len(node) != 1, forall(lambda k: {COUNT} == old({COUNT}) - (1 if (self._track_size and k == self.get_size(node) and old({COUNT}) >= 1) else 0)))",
+        "implies(len(node) != 1, self._flops == old(self._flops) - (old(self.get_flops(node)) if self._track_flops else 0))",
+        "implies(len(node) != 1, self._write == old(self._write) - (old(self.get_size(node)) if self._track_write else 0))",
+        f"implies(len(node) != 1, forall(lambda k: {COUNT} == old({COUNT}) - (1 if (self._track_size and k == old(self.get_size(node)) and old({COUNT}) >= 1) else 0)))",
         f"implies(len(node) == 1, forall(lambda k: {COUNT} == old({COUNT})))",
         # a leaf loses its preprocessing step
         "implies(len(node) == 1, not (node_get_single_el(node) in self.preprocessing))",
@@ -148,3 +148,78 @@ contract_nodes_pair = Contract(
     **common,
 )
 CONTRACTS.append(contract_nodes_pair)
+
+
+# ---------------------------------------------------------------- generators
+def _partial_tree(rng):
+    import cotengra as ctg
+    from cotengra.utils import node_get_single_el
+
+    n = rng.randint(2, 6)
+    con = ctg.utils.rand_equation(n, 3, n_out=rng.randint(0, 2), n_hyper_in=(rng.randint(0, 1) if n >= 3 else 0), seed=rng.randint(0, 10**6))
+    tree = ctg.ContractionTree(con.inputs, con.output, con.size_dict, track_flops=True, track_write=True, track_size=True,
+                               track_childless=rng.random() < 0.5)
+    nodes = list(tree.gen_leaves())
+    for _ in range(rng.randint(0, n - 2)):
+        a, b = rng.sample(nodes, 2)
+        nodes.remove(a)
+        nodes.remove(b)
+        nodes.append(tree.contract_nodes_pair(a, b))
+    universe = list(tree.info) + list(range(0, 40)) + [s for s in {tree.get_size(nd) for nd in tree.info}]
+    return con, tree, nodes, universe
+
+
+def _gen_pair(rng):
+    from cotengra.pathfinders.path_simulated_annealing import compute_contracted_info
+
+    con, tree, nodes, universe = _partial_tree(rng)
+    if len(nodes) < 2:
+        return None
+    x, y = rng.sample(nodes, 2)
+    legs = cost = size = None
+    if rng.random() < 0.5:
+        legs, cost, size = compute_contracted_info(tree.get_legs(x), tree.get_legs(y), tree.appearances, tree.size_dict)
+        if rng.random() < 0.3:
+            legs = None
+    universe = universe + [x | y]
+    return {"self": tree, "args": (x, y), "kwargs": {"legs": legs, "cost": cost, "size": size}, "universe": universe,
+            "describe": f"{con.inputs}->{con.output} nodes={[sorted(nd) for nd in nodes]} x={sorted(x)} y={sorted(y)} precomputed={legs is not None, cost is not None}"}
+
+
+def _gen_node(kind):
+    def gen(rng):
+        con, tree, nodes, universe = _partial_tree(rng)
+        cands = list(tree.info)
+        if kind == "tracked":
+            cands = list(tree.children)
+            if not cands:
+                return None
+        if kind == "remove":
+            # a node can only be removed if nothing is built on top of it
+            parents = {c for lr in tree.children.values() for c in lr}
+            cands = [nd for nd in cands if (len(nd) == 1 or nd in tree.children)]
+        node = rng.choice(cands)
+        if kind == "tracked" and len(node) == 1:
+            return None
+        if kind == "add":
+            node = rng.choice(cands + [frozenset(rng.sample(range(tree.N), rng.randint(1, tree.N)))])
+            return {"self": tree, "args": (node, False), "universe": universe + [node], "describe": f"node={sorted(node)}"}
+        return {"self": tree, "args": (node,), "universe": universe, "describe": f"{con.inputs}->{con.output} node={sorted(node)}"}
+
+    return gen
+
+
+def _natives():
+    from cotengra.utils import node_get_single_el
+
+    return {"node_get_single_el": node_get_single_el}
+
+
+for _c in CONTRACTS:
+    _c.natives = _natives()
+add_node.gen = _gen_node("add")
+update_tracked.gen = _gen_node("tracked")
+remove_node.gen = _gen_node("remove")
+contract_nodes_pair.gen = _gen_pair
+contract_nodes_pair.defaults = {"legs": "None", "cost": "None", "size": "None", "check": "False"}
+add_node.defaults = {"check": "False"}
